@@ -124,15 +124,48 @@ func (fc *FnCtx) callByContract(fr *Frame, st *State, reach string, con *Contrac
 		fc.oblige(fr, "requires", shortName(callee)+": "+clauseName(cl), reach, t, env.quant, nil)
 	}
 	pre := st.clone()
-	fc.applyModifies(st, pre, con, vars)
-	res := fc.freshVal(st, resultType(sig.Results()), "res_"+callee.Name())
+	deferred := fc.applyModifies(st, pre, con, vars)
+	var res Val
+	if con.Pure {
+		res = fc.pureResult(st, callee, args, resultType(sig.Results()))
+	} else {
+		res = fc.freshVal(st, resultType(sig.Results()), "res_"+callee.Name())
+	}
 	bindResults(con, sig, res, vars)
-	for _, cl := range con.Ensures {
+	if len(deferred) > 0 {
+		t2, _ := fc.evalModifiesD(st, con, deferred, vars, false)
+		fc.havocTargets(st, t2)
+	}
+	for _, cl := range append(append([]*Clause{}, con.Defines...), con.Ensures...) {
 		env := fc.specEnv(st, pre, vars, con.Pkg, nil, cl.Text)
 		t := env.evalBool(cl.Expr)
 		fc.sc.assume(tImp(reach, t))
 	}
 	return res
+}
+
+// pureResult: the result of a `pure` function is an uninterpreted function of
+// its scalar arguments, so repeated calls (in code and in specs) agree.
+func (fc *FnCtx) pureResult(st *State, callee *ssa.Function, args []Val, rt types.Type) Val {
+	fc.assumption("pure function modelled as a function of its arguments (and immutable boxed values) only: " + shortFn(callee))
+	var as, sorts []string
+	for _, a := range args {
+		walkVal(a, "", func(suffix, sort, term string, t types.Type) {
+			as = append(as, term)
+			sorts = append(sorts, sort)
+		})
+	}
+	base := "pure$" + sanitize(shortFn(callee))
+	v := buildVal(rt, "", func(suffix, sort string, t types.Type) string {
+		name := base + sanitize(suffix)
+		fc.sc.declareFun(name, sorts, sort)
+		if len(as) == 0 {
+			return name
+		}
+		return sx(name, as...)
+	})
+	fc.sc.assume(fc.typeInv(st, v))
+	return v
 }
 
 func (fc *FnCtx) callByContractIface(fr *Frame, st *State, reach string, con *Contract, recv Val, args []Val, call ssa.CallInstruction) Val {
@@ -147,9 +180,13 @@ func (fc *FnCtx) callByContractIface(fr *Frame, st *State, reach string, con *Co
 		fc.oblige(fr, "requires", con.Decl.Name.Name+": "+clauseName(cl), reach, t, env.quant, nil)
 	}
 	pre := st.clone()
-	fc.applyModifies(st, pre, con, vars)
+	deferred := fc.applyModifies(st, pre, con, vars)
 	res := fc.freshVal(st, resultType(sig.Results()), "res_"+con.Decl.Name.Name)
 	bindResults(con, sig, res, vars)
+	if len(deferred) > 0 {
+		t2, _ := fc.evalModifiesD(st, con, deferred, vars, false)
+		fc.havocTargets(st, t2)
+	}
 	for _, cl := range con.Ensures {
 		env := fc.specEnv(st, pre, vars, con.Pkg, nil, cl.Text)
 		fc.sc.assume(tImp(reach, env.evalBool(cl.Expr)))
@@ -167,9 +204,39 @@ type modTarget struct {
 	text  string
 }
 
+// evalModifies evaluates the modifies items. Items that mention a result
+// (not yet bound in vars) are returned in deferred when allowDefer is set.
 func (fc *FnCtx) evalModifies(pre *State, con *Contract, vars map[string]Val) []modTarget {
-	var out []modTarget
-	for _, m := range con.Modifies {
+	out, _ := fc.evalModifiesD(pre, con, con.Modifies, vars, false)
+	return out
+}
+
+func (fc *FnCtx) evalModifiesD(pre *State, con *Contract, items []string, vars map[string]Val, allowDefer bool) (out []modTarget, deferred []string) {
+	for _, m := range items {
+		one, err := fc.evalModItem(pre, con, m, vars)
+		if err != "" {
+			if allowDefer && strings.Contains(err, "unknown identifier") {
+				deferred = append(deferred, m)
+				continue
+			}
+			panic(specErr{err})
+		}
+		out = append(out, one...)
+	}
+	return
+}
+
+func (fc *FnCtx) evalModItem(pre *State, con *Contract, m string, vars map[string]Val) (out []modTarget, errMsg string) {
+	defer func() {
+		if r := recover(); r != nil {
+			if se, ok := r.(specErr); ok {
+				errMsg = se.msg
+				return
+			}
+			panic(r)
+		}
+	}()
+	{
 		env := fc.specEnv(pre, nil, vars, con.Pkg, nil, "modifies "+m)
 		if i := strings.Index(m, "("); i > 0 && strings.HasSuffix(m, ")") {
 			if g := fc.eng.ghosts[m[:i]]; g != nil && g.Field {
@@ -178,7 +245,7 @@ func (fc *FnCtx) evalModifies(pre *State, con *Contract, vars map[string]Val) []
 					env.fail("%v", err)
 				}
 				out = append(out, modTarget{kind: "ghost", ghost: g.Name, ref: refOf(env.eval(sp)), text: m})
-				continue
+				return
 			}
 		}
 		switch {
@@ -200,7 +267,7 @@ func (fc *FnCtx) evalModifies(pre *State, con *Contract, vars map[string]Val) []
 						out = append(out, modTarget{kind: "obj", addr: &Addr{Kind: AObj, Base: v.S, Root: pt.Elem(), T: pt.Elem()}, text: m})
 					}
 				}
-				continue
+				return
 			}
 			if v.K != KAddr {
 				env.fail("x.* needs a pointer")
@@ -216,7 +283,7 @@ func (fc *FnCtx) evalModifies(pre *State, con *Contract, vars map[string]Val) []
 					v := env.eval(sp)
 					if _, isMap := v.T.Underlying().(*types.Map); isMap {
 						out = append(out, modTarget{kind: "map", slice: v, ref: v.S, text: m})
-						continue
+						return
 					}
 				}
 			}
@@ -229,7 +296,7 @@ func (fc *FnCtx) evalModifies(pre *State, con *Contract, vars map[string]Val) []
 			}
 		}
 	}
-	return out
+	return
 }
 
 // lvalue evaluates x.f.g to the address of the field.
@@ -312,13 +379,27 @@ func pkgOfType(t types.Type, def *types.Package) *types.Package {
 	return def
 }
 
-func (fc *FnCtx) applyModifies(st, pre *State, con *Contract, vars map[string]Val) {
+func (fc *FnCtx) applyModifies(st, pre *State, con *Contract, vars map[string]Val) (deferred []string) {
 	if con.ModAll {
 		fc.havocAll(st)
 		fc.noteHavocAll()
-		return
+		return nil
 	}
-	for _, m := range fc.evalModifies(pre, con, vars) {
+	targets, deferred := fc.evalModifiesD(pre, con, con.Modifies, vars, true)
+	fc.havocTargets(st, targets)
+	// callee allocations: allocation only grows
+	if con.allocates() {
+		old := fc.alloc(st)
+		nw := fc.sc.fresh("alloc_c", "(Array Int Bool)")
+		fc.sc.assume("(forall ((r Int)) (! (=> (select " + old + " r) (select " + nw + " r)) :pattern ((select " + nw + " r))))")
+		st.heap["Alloc"] = nw
+		fc.noteWrite("Alloc")
+	}
+	return deferred
+}
+
+func (fc *FnCtx) havocTargets(st *State, targets []modTarget) {
+	for _, m := range targets {
 		switch m.kind {
 		case "field":
 			fc.havocAddr(st, m.addr)
@@ -338,14 +419,6 @@ func (fc *FnCtx) applyModifies(st, pre *State, con *Contract, vars map[string]Va
 			g := fc.eng.ghosts[m.ghost]
 			fc.storeLoc(st, loc{name: "GH$" + m.ghost, idx: []string{m.ref}, sort: g.Ret}, fc.sc.fresh("gh_"+m.ghost, g.Ret))
 		}
-	}
-	// callee allocations: allocation only grows
-	if con.allocates() {
-		old := fc.alloc(st)
-		nw := fc.sc.fresh("alloc_c", "(Array Int Bool)")
-		fc.sc.assume("(forall ((r Int)) (! (=> (select " + old + " r) (select " + nw + " r)) :pattern ((select " + nw + " r))))")
-		st.heap["Alloc"] = nw
-		fc.noteWrite("Alloc")
 	}
 }
 
@@ -425,6 +498,21 @@ func (fc *FnCtx) checkInvariants(fr *Frame, h *ssa.BasicBlock, li int, st *State
 		env := fc.invEnv(fr, st, phiVals, phis, cl.Text)
 		t := env.evalBool(cl.Expr)
 		fc.oblige(fr, "invariant-"+where, fmt.Sprintf("loop %d: %s", li, clauseName(cl)), reach, t, env.quant, nil)
+	}
+	// step clauses: facts about one iteration, checked at the back edge with the
+	// iteration's locals in scope (never assumed)
+	if where == "back" {
+		var steps []*Clause
+		if fr.parent == nil && fc.con != nil {
+			steps = fc.con.LoopStep[li]
+		} else if con := fc.eng.contracts[fr.fn.String()]; con != nil && fr.parent != nil {
+			steps = con.LoopStep[li]
+		}
+		for _, cl := range steps {
+			env := fc.invEnv(fr, st, phiVals, phis, cl.Text)
+			t := env.evalBool(cl.Expr)
+			fc.oblige(fr, "loop-step", fmt.Sprintf("loop %d: %s", li, clauseName(cl)), reach, t, env.quant, nil)
+		}
 	}
 	// automatic candidates: the function's frame condition holds at the loop head
 	if fr.parent == nil && fc.con != nil && fc.con.HasMod && !fc.con.ModAll && !fc.discovery && !fc.loopHavocAll[h] {
@@ -672,7 +760,7 @@ func (fc *FnCtx) verify() {
 			fc.sc.assume(env.evalBool(cl.Expr))
 		}
 		if con.HasMod && !con.ModAll {
-			fc.modTargets = fc.evalModifies(st, con, vars)
+			fc.modTargets, fc.modDeferred = fc.evalModifiesD(st, con, con.Modifies, vars, true)
 		}
 	}
 	// vacuity guard: the precondition must be satisfiable
@@ -685,6 +773,11 @@ func (fc *FnCtx) verify() {
 		return
 	}
 	bindResults(con, fn.Signature, res, vars)
+	for _, cl := range con.Defines {
+		env := fc.specEnv(st, pre, vars, con.Pkg, fr, cl.Text)
+		fc.assumption("defines clause (ghost definition, assumed at its definition site): " + shortFnName(fn) + ": " + cl.Text)
+		fc.sc.assume(tImp(retReach, env.evalBool(cl.Expr)))
+	}
 	for _, cl := range con.Ensures {
 		env := fc.specEnv(st, pre, vars, con.Pkg, fr, cl.Text)
 		t := env.evalBool(cl.Expr)
@@ -739,6 +832,10 @@ func (fc *FnCtx) frameCheck(fr *Frame, st, pre *State, con *Contract, vars map[s
 		return
 	}
 	targets := fc.modTargets
+	if len(fc.modDeferred) > 0 {
+		t2, _ := fc.evalModifiesD(st, con, fc.modDeferred, vars, false)
+		targets = append(append([]modTarget{}, targets...), t2...)
+	}
 	names := make([]string, 0, len(fc.writtenNames))
 	for n := range fc.writtenNames {
 		names = append(names, n)
